@@ -4,6 +4,7 @@ import (
 	"context"
 	"encoding/json"
 	"fmt"
+	"os"
 	"strings"
 	"testing"
 
@@ -23,6 +24,9 @@ type cancelParams struct {
 	Cancel int64  `json:"cancel"` // tick of the cancel fault
 	Budget int64  `json:"budget"` // ticks allowed after the cancel
 	Pool   int    `json:"pool"`
+	// API: Go-API clients of one channel using only the context-aware operations; the
+	// cancel is the only thing that can release a blocked client (shape "api_chan_cancel")
+	API *syncParams `json:"api,omitempty"`
 }
 
 type shapeDef struct {
@@ -72,8 +76,10 @@ var cancelShapes = []shapeDef{
 	{name: "select_none_ready", body: "cha := Channel::[Int](0)\nchb := Channel::[Int](1)\nchb << 1\nselect\ncase v := <<cha\n  x = 1\ncase chb << 2\n  x = 2\nend\n"},
 	{name: "poppers_buffered", defs: "def popper(ch: Channel[Int], id: Int)\n  loop\n    v := try ch.pop\n  end\nend\n", body: "jobs := Channel::[Int](2)\ngo popper(jobs, 1)\ngo popper(jobs, 2)\ngo popper(jobs, 3)\nloop\n  jobs << x\n  x = x + 1\nend\n"},
 	{name: "poppers_result_buffered", defs: "def rpopper(ch: Channel[Int], id: Int)\n  loop\n    r := <<ch\n    break unless r.ok\n  end\nend\n", body: "rjobs := Channel::[Int](1)\ngo rpopper(rjobs, 1)\ngo rpopper(rjobs, 2)\nloop\n  rjobs << x\n  x = x + 1\n  sleep 1.millisecond if x % 7 == 0\nend\n"},
-	{name: "poppers_bursty", defs: "def bpopper(ch: Channel[Int], id: Int)\n  loop\n    v := try ch.pop\n  end\nend\n", body: "bjobs := Channel::[Int](2)\ngo bpopper(bjobs, 1)\ngo bpopper(bjobs, 2)\ngo bpopper(bjobs, 3)\nvar bi = 0\nloop\n  bjobs << x\n  bjobs << x + 1\n  x = x + 2\n  bi = 0\n  while bi < 400\n    bi = bi + 1\n  end\nend\n"},
-	{name: "rpoppers_bursty", defs: "def brpopper(ch: Channel[Int], id: Int)\n  loop\n    r := <<ch\n    break unless r.ok\n  end\nend\n", body: "brjobs := Channel::[Int](3)\ngo brpopper(brjobs, 1)\ngo brpopper(brjobs, 2)\ngo brpopper(brjobs, 3)\ngo brpopper(brjobs, 4)\nvar bri = 0\nloop\n  brjobs << x\n  brjobs << x + 1\n  x = x + 2\n  bri = 0\n  while bri < 900\n    bri = bri + 1\n  end\nend\n"},
+	{name: "poppers_bursty", defs: "def bpopper(ch: Channel[Int], id: Int)\n  var k = 0\n  loop\n    v := try ch.pop\n    k = 0\n    while k < 25\n      k = k + 1\n    end\n  end\nend\n", body: "bjobs := Channel::[Int](2)\ngo bpopper(bjobs, 1)\ngo bpopper(bjobs, 2)\ngo bpopper(bjobs, 3)\nvar bi = 0\nloop\n  bjobs << x\n  bjobs << x + 1\n  x = x + 2\n  bi = 0\n  while bi < 400\n    bi = bi + 1\n  end\nend\n"},
+	{name: "rpoppers_bursty", defs: "def brpopper(ch: Channel[Int], id: Int)\n  var k = 0\n  loop\n    r := <<ch\n    break unless r.ok\n    k = 0\n    while k < 40\n      k = k + 1\n    end\n  end\nend\n", body: "brjobs := Channel::[Int](3)\ngo brpopper(brjobs, 1)\ngo brpopper(brjobs, 2)\ngo brpopper(brjobs, 3)\ngo brpopper(brjobs, 4)\nvar bri = 0\nloop\n  brjobs << x\n  brjobs << x + 1\n  x = x + 2\n  bri = 0\n  while bri < 900\n    bri = bri + 1\n  end\nend\n"},
+	{name: "poppers_feed_then_spin", defs: "def fpopper(ch: Channel[Int], id: Int)\n  var k = 0\n  loop\n    v := try ch.pop\n    k = 0\n    while k < 25\n      k = k + 1\n    end\n  end\nend\n", body: "fjobs := Channel::[Int](3)\ngo fpopper(fjobs, 1)\ngo fpopper(fjobs, 2)\ngo fpopper(fjobs, 3)\ngo fpopper(fjobs, 4)\nvar fi = 0\nwhile fi < 9\n  fjobs << fi\n  fi = fi + 1\nend\nloop\n  x = x + 1\nend\n"},
+	{name: "rpoppers_feed_then_block", defs: "def frpopper(ch: Channel[Int], id: Int)\n  var k = 0\n  loop\n    r := <<ch\n    break unless r.ok\n    k = 0\n    while k < 40\n      k = k + 1\n    end\n  end\nend\n", body: "frjobs := Channel::[Int](2)\ngo frpopper(frjobs, 1)\ngo frpopper(frjobs, 2)\ngo frpopper(frjobs, 3)\nvar fri = 0\nwhile fri < 7\n  frjobs << fri\n  fri = fri + 1\nend\nfrnever := Channel::[Int](0)\nx = try frnever.pop\n"},
 	{name: "pushers_buffered", defs: "def pusher(ch: Channel[Int], id: Int)\n  i := 0\n  loop\n    ch << id * 1000 + i\n    i = i + 1\n  end\nend\n", body: "pch := Channel::[Int](2)\ngo pusher(pch, 1)\ngo pusher(pch, 2)\nloop\n  x = x + (try pch.pop)\nend\n"},
 	{name: "await_in_async_loop", defs: "async def leaf(n: Int): Int\n  n + 1\nend\n", body: "loop\n  x = await leaf(x)\nend\n"},
 	// constructs with no context support (D4)
@@ -111,7 +117,46 @@ func prologue(r *Rand) string {
 
 func (*c33Engine) Generate(seed uint64, tier string) *Case {
 	r := NewRand(seed)
+	if r.Chance(0.06) && os.Getenv("SIM_C33_SHAPE") == "" {
+		// the context-aware channel operations themselves, driven through the Go API:
+		// 2-5 clients x 1-5 PushCtx / PopCtx on one channel of capacity 0-3, nobody closes
+		// it, the peer cancels the context after a PRNG-chosen number of steps
+		var sp syncParams
+		sp.Family = "api-chan"
+		sp.Cap = r.Intn(4)
+		sp.NoClose = true
+		next := 1
+		for c, nc := 0, r.Range(2, 5); c < nc; c++ {
+			var ops []chanOp
+			producer := r.Chance(0.35)
+			for i, n := 0, r.Range(1, 5); i < n; i++ {
+				if producer && r.Chance(0.8) || !producer && r.Chance(0.1) {
+					ops = append(ops, chanOp{Kind: "pushctx", Val: next})
+					next++
+				} else {
+					ops = append(ops, chanOp{Kind: "popctx"})
+				}
+			}
+			sp.Clients = append(sp.Clients, ops)
+		}
+		sp.CloseAt = r.Range(0, 60)
+		p := cancelParams{Shape: "api_chan_cancel", Where: "api", API: &sp}
+		bb, _ := json.Marshal(&p)
+		sc := drawSched(r, 2000)
+		sc.MaxTicks = 3_000_000
+		if sc.Strategy == "random" {
+			sc.MeanGap = Pick(r, []int{1, 2, 3, 5, 8})
+		}
+		return &Case{Params: bb, Sched: sc}
+	}
 	sh := Pick(r, cancelShapes)
+	if want := os.Getenv("SIM_C33_SHAPE"); want != "" { // debugging aid: explore one shape only
+		for _, c := range cancelShapes {
+			if c.name == want {
+				sh = c
+			}
+		}
+	}
 	p := cancelParams{Shape: sh.name, Pool: r.Range(1, 3), Budget: 600_000}
 	var b strings.Builder
 	b.WriteString(sh.defs)
@@ -158,6 +203,27 @@ func (*c33Engine) Execute(t *testing.T, c *Case) *Verdict {
 	var p cancelParams
 	if err := json.Unmarshal(c.Params, &p); err != nil {
 		return &Verdict{Verdict: "harness_error", Detail: err.Error()}
+	}
+	if p.API != nil {
+		cc := *c
+		cc.Params, _ = json.Marshal(p.API)
+		v := (&c25Engine{}).runAPI(t, &cc, p.API)
+		v.Property = "C33"
+		if v.Extra == nil {
+			v.Extra = map[string]int64{}
+		}
+		v.Extra["shape_api_chan_cancel"] = 1
+		v.Extra["cancel_fired"] = 1
+		v.Nontrivial = true
+		if v.Verdict == "violation" {
+			if v.Class == "deadlock" {
+				v.Class, v.Sig = "hangs", "hangs/api_chan_cancel"
+				v.Detail = "a context-aware channel operation stayed blocked after its context was cancelled (nothing closes the channel): " + v.Detail + "\nclients: " + string(cc.Params)
+			} else {
+				v.Sig = v.Class + "/api_chan_cancel"
+			}
+		}
+		return v
 	}
 	resetElk()
 	chunk, diags, failed, panicked := compileElk(p.Src, true)
